@@ -6,12 +6,15 @@ toolchain go1.23.5
 
 require (
 	github.com/deadsy/sdfx v0.0.0
+	github.com/hpinc/go3mf v0.24.2
+	github.com/yofu/dxf v0.0.0-20240729034626-50c66fc03e0d
 	pgregory.net/rapid v1.3.0
 )
 
 require (
 	github.com/dhconnelly/rtreego v1.2.0 // indirect
 	github.com/golang/freetype v0.0.0-20170609003504-e2365dfdc4a0 // indirect
+	github.com/qmuntal/opc v0.7.12 // indirect
 	golang.org/x/image v0.22.0 // indirect
 )
 
